@@ -28,7 +28,9 @@ import copy
 from .core import AnalysisError
 from .pyabs import Interp, Obj, W, YP, PyRaise, Raised, LexUnknown, NonUniform, deep_eq
 
-MAX_CONFIGS = 2_000_000
+MAX_CONFIGS = 400_000
+MAX_SECONDS = 900
+COUNTER_RANGE = (-6, 14)
 MAX_DEPTH = 64
 
 
@@ -510,11 +512,15 @@ class Explorer:
         start.parent, start.word, start.step = None, None, None
         seen = {ident(start.S, start.flags, start.stack, start.inst)}
         q = collections.deque([start])
+        import time as _time
+        t0 = _time.time()
         while q:
             cur = q.popleft()
             self.n_configs += 1
             if self.n_configs > MAX_CONFIGS:
                 raise AnalysisError(f"spec {spec.name}: more than {MAX_CONFIGS} configurations")
+            if self.n_configs % 2000 == 0 and _time.time() - t0 > MAX_SECONDS:
+                raise AnalysisError(f"spec {spec.name}: exploration exceeds {MAX_SECONDS}s ({self.n_configs} configurations so far)")
             self.max_depth = max(self.max_depth, len(cur.stack))
             ctx_words = self.path_of(cur)
             moves = collections.OrderedDict()
@@ -566,6 +572,14 @@ class Explorer:
                     self.add("O-accept", f"{spec.name}: lexer emits unknown token type {lr.type}", "", wit)
                     continue
                 self.cur_flags = lr.flags
+                runaway = [(k, v) for k, v in lr.flags if isinstance(v, int) and not isinstance(v, bool)
+                           and not (COUNTER_RANGE[0] <= v <= COUNTER_RANGE[1])]
+                if runaway:
+                    self.add("O-counter", f"{spec.name}: lexer counter `{runaway[0][0]}` leaves its range (segment {t.kind})",
+                             f"{runaway[0][0]} = {runaway[0][1]} after the words shown: the counter no longer follows the brackets / "
+                             "parentheses of the statement (it must return to 0 at the end of every balanced construct), so every later "
+                             "comma / parenthesis of the statement is mis-typed", wit)
+                    continue
                 for (k, v), (k0, v0) in zip(lr.flags, self.lm.start):
                     if v != v0:
                         self.flags_touched.add(k)
